@@ -430,7 +430,8 @@ impl Property for C06 {
     fn rule(&self) -> &'static str {
         "case = pool of 3-7 collectors (Counter, CounterVec, custom single- and multi-descriptor collectors) over overlapping pools \
          of 3 names, 2 help texts, 2 constant-label names x 2 values, 2 variable-label names, later collectors derived from earlier \
-         ones (equal / sibling with another constant value / other help); then a history of 4-30 register/unregister/gather calls. \
+         ones (equal / sibling with another constant value / other help), in 2% of cases on top of 50-550 registered background \
+         collectors; then a history of 4-30 register/unregister/gather calls. \
          Oracles: (1) reference model of admission (identity keys, per-name signatures of everything ever registered), error kind \
          AlreadyReg when equality is the only reason, gather() = samples of exactly the registered collectors; (2) twin Registry \
          that receives the same history without the refused calls must give identical results and gathers; (3) in 12% of cases a \
@@ -473,16 +474,35 @@ impl Property for C06 {
         let reg = Registry::new();
         let twin = Registry::new();
         let mut model = Model::default();
+        // 2% of cases: the registry already holds 50-550 unrelated collectors (the library imposes no limit); they stay
+        // registered throughout and every gather must keep showing each of them
+        let npick = pool.len();
+        let mut accepted: Vec<(bool, usize)> = vec![];
+        if src.chance(5) {
+            for k in 0..(50 + src.below(500)) {
+                let spec = DSpec { name: format!("bulk_{}", (k * 7919 + 13) % 10007), help: "h".into(), consts: BTreeMap::new(), vars: BTreeSet::new() };
+                let c = Counter::with_opts(Opts::new(spec.name.clone(), spec.help.clone())).unwrap();
+                let idx = pool.len();
+                c.inc_by((idx + 1) as f64);
+                let coll = Coll::Counter(c, spec.clone());
+                ensure!(reg.register(coll.boxed()).is_ok() && twin.register(coll.boxed()).is_ok(), "valid-registration-refused", "background collector {:?}", spec.name);
+                model.registered.insert([spec.id()].into_iter().collect(), idx);
+                model.ids.insert(spec.id());
+                model.sigs.insert(spec.name.clone(), spec.sig());
+                accepted.push((true, idx));
+                pool.push(coll);
+            }
+            rep.class("large-registry(50-550 background collectors)");
+        }
         let nops = 4 + src.below(27);
         let mut log: Vec<String> = vec![];
         let mut refused_names: BTreeSet<String> = BTreeSet::new();
         let mut nontrivial = false;
         let mut refused_partway = false;
-        let mut accepted: Vec<(bool, usize)> = vec![];
 
         for step in 0..nops {
             let op = src.below(10);
-            let i = src.below(pool.len());
+            let i = src.below(npick);
             let c = &pool[i];
             let specs = c.specs();
             let idset: BTreeSet<IdKey> = specs.iter().map(|s| s.id()).collect();
@@ -625,12 +645,12 @@ impl Property for C06 {
         rep.nontrivial = nontrivial;
         let want_concurrent = src.chance(30);
         if want_concurrent || crate::schedsrc::free_mode() {
-            if let v @ Verdict::Fail { .. } = concurrent_phase(src, rep, &pool) {
+            if let v @ Verdict::Fail { .. } = concurrent_phase(src, rep, &pool[..npick]) {
                 return v;
             }
         }
         if rep.want_sample {
-            let p: Vec<String> = pool.iter().enumerate().map(|(i, c)| format!("#{}={:?}", i, c.specs().iter().map(|s| (s.name.clone(), s.help.clone(), s.consts.clone(), s.vars.clone())).collect::<Vec<_>>())).collect();
+            let p: Vec<String> = pool.iter().take(npick).enumerate().map(|(i, c)| format!("#{}={:?}", i, c.specs().iter().map(|s| (s.name.clone(), s.help.clone(), s.consts.clone(), s.vars.clone())).collect::<Vec<_>>())).collect();
             rep.sample = Some(format!("pool: {} :: history: {}", p.join(" "), log.join(" ")));
         }
         Verdict::Pass
